@@ -39,6 +39,8 @@ namespace rkcommon {
 
     RKVERIF_C10_FLATMAP(int, int)
     RKVERIF_C10_FLATMAP(std::string, int)
+    // a key type whose operator== is not equality of the object representation (+0.0 == -0.0, NaN != NaN)
+    RKVERIF_C10_FLATMAP(double, int)
 #ifdef RKVERIF_C10_WIDE
     RKVERIF_C10_FLATMAP(std::string, std::string)
     RKVERIF_C10_FLATMAP(int, std::string)
